@@ -54,7 +54,7 @@ type treeSpec struct {
 	Place    []int  `json:"place,omitempty"`    // roster position per node (pre-order)
 	Idx      []int  `json:"idx,omitempty"`      // RosterIndex recorded in the node (default = Place)
 	NodeIDs  []int  `json:"nodeids,omitempty"`  // explicit node id numbers (default: derived by NewTreeNode)
-	Gen      string `json:"gen,omitempty"`      // "nary:N" | "big:N:nodes" | "binary" | "star": use the roster's generator
+	Gen      string `json:"gen,omitempty"`      // "nary:N" | "naryroot:N:root" | "big:N:nodes" | "binary" | "star": use the roster's generator
 	NoAgg    bool   `json:"noagg,omitempty"`    // assembled by hand, aggregates never computed
 	NoRoster bool   `json:"noroster,omitempty"` // Tree.Roster == nil
 }
@@ -145,6 +145,10 @@ func mkTree(ro *onet.Roster, ts treeSpec) *onet.Tree {
 			return ro.GenerateBinaryTree()
 		case ts.Gen == "star":
 			return ro.GenerateStar()
+		case strings.HasPrefix(ts.Gen, "naryroot:"):
+			// the generator with an explicit root: member b of the roster
+			fmt.Sscanf(ts.Gen, "naryroot:%d:%d", &a, &b)
+			return ro.GenerateNaryTreeWithRoot(a, ro.List[b%len(ro.List)])
 		case strings.HasPrefix(ts.Gen, "nary:"):
 			fmt.Sscanf(ts.Gen, "nary:%d", &a)
 			return ro.GenerateNaryTree(a)
@@ -595,6 +599,25 @@ func runPure(in input) lib.Case {
 	size := sender.Size()
 	obs := map[string]interface{}{"size": size}
 	switch in.Kind {
+	case "gen":
+		// the generator's tree against the model of Tree/TreeGenNary.v
+		var n, root int
+		switch {
+		case strings.HasPrefix(in.Tree.Gen, "naryroot:"):
+			fmt.Sscanf(in.Tree.Gen, "naryroot:%d:%d", &n, &root)
+			root %= len(ro.List)
+		case strings.HasPrefix(in.Tree.Gen, "nary:"):
+			fmt.Sscanf(in.Tree.Gen, "nary:%d", &n)
+		case in.Tree.Gen == "binary":
+			n = 2
+		case in.Tree.Gen == "star":
+			n = len(ro.List) - 1
+		default:
+			panic("gen case with " + in.Tree.Gen)
+		}
+		obs["root"], obs["N"] = root, n
+		return lib.Case{Coq: fmt.Sprintf("CGen %d %d %s", n, root, senderLit), Class: "gen-" + in.Name + suffix, Obs: obs, Nontrivial: size > 1,
+			Key: fmt.Sprintf("gen|%s|%d|%s|%v", in.Tree.Gen, len(ro.List), in.Suite, in.Roster.Svc)}
 	case "round":
 		var tmObs *onet.TreeMarshal
 		tmCrash := false
@@ -979,8 +1002,32 @@ func generate(rng *rand.Rand, tier string) []interface{} {
 		default:
 			g = fmt.Sprintf("big:%d:%d", 1+rng.Intn(4), 1+rng.Intn(80))
 		}
+		if (i%4 == 1 || i%4 == 2) && n > 1 {
+			// the generator with a root that is not the first member
+			g = fmt.Sprintf("naryroot:%d:%d", 1+rng.Intn(4), 1+rng.Intn(n-1))
+		}
 		name := "gen-" + strings.Split(g, ":")[0]
 		ins = append(ins, input{Kind: "round", Name: name, Suite: suitesL[i%2], Roster: rosterSpec{Members: seqInts(n), Svc: i%3 == 0}, Tree: treeSpec{Gen: g}})
+	}
+	// (2b) the n-ary generator against its model: every root position for small rosters
+	maxGenN := 7
+	if !quick {
+		maxGenN = 12
+	}
+	for n := 1; n <= maxGenN; n++ {
+		for bf := 1; bf <= 3; bf++ {
+			for root := 0; root < n; root++ {
+				if quick && (n+bf+root)%2 == 1 && root > 1 {
+					continue
+				}
+				ins = append(ins, input{Kind: "gen", Name: "naryroot", Suite: suitesL[(n+root)%2], Roster: rosterSpec{Members: seqInts(n), Svc: root%3 == 2},
+					Tree: treeSpec{Gen: fmt.Sprintf("naryroot:%d:%d", bf, root)}})
+			}
+		}
+		ins = append(ins, input{Kind: "gen", Name: "binary", Roster: rosterSpec{Members: seqInts(n)}, Tree: treeSpec{Gen: "binary"}})
+		if n > 1 {
+			ins = append(ins, input{Kind: "gen", Name: "star", Roster: rosterSpec{Members: seqInts(n)}, Tree: treeSpec{Gen: "star"}})
+		}
 	}
 	// (3) random trees up to 200 nodes
 	big := 24
